@@ -431,6 +431,42 @@ func ruleAcceptRetryable(c *Checker) {
 				}
 			}
 		})
+		if badRet != "" || nLeg == 0 {
+			// the same question asked per path (the error may be wrapped first and returned after a
+			// second test of a result variable): from the non-nil edge of every test of the constructor's
+			// error, every path ends in a return of a *temporaryError
+			isCar := isCarrierOf(errv)
+			nTests, okAll := 0, true
+			allInstrs(acc, func(in ssa.Instruction) {
+				iff, ok := in.(*ssa.If)
+				if !ok {
+					return
+				}
+				bo, ok := iff.Cond.(*ssa.BinOp)
+				if !ok || (bo.Op != token.NEQ && bo.Op != token.EQL) || !isNilConst(bo.Y) || !isCar(bo.X) {
+					return
+				}
+				nTests++
+				leg := iff.Block().Succs[0]
+				if bo.Op == token.EQL {
+					leg = iff.Block().Succs[1]
+				}
+				if !allPathsReturn(iff.Block(), leg, bo.X, func(ret *ssa.Return, resolve func(ssa.Value) ssa.Value, _ map[ssa.Value]bool) bool {
+					v := resolve(ret.Results[len(ret.Results)-1])
+					mi, ok := v.(*ssa.MakeInterface)
+					if !ok {
+						return false
+					}
+					nn := namedOf(deref(mi.X.Type()))
+					return nn != nil && nn.Obj().Name() == "temporaryError"
+				}) {
+					okAll = false
+				}
+			})
+			if nTests > 0 && okAll {
+				badRet, nLeg = "", 1
+			}
+		}
 		c.decide(badRet == "" && nLeg > 0, "EXCL", "Accept|error of "+calleeLabel(call.Common())+" is temporary", instrPos(call), "returned wrapped in *temporaryError",
 			"Accept hands out the error of "+calleeLabel(call.Common())+" at "+badRet+" without the temporaryError wrapper: one failed connection attempt ends the grpc server")
 	}
